@@ -2,6 +2,7 @@ package main
 
 import (
 	"bytes"
+	"strings"
 
 	"github.com/datastax/go-cassandra-native-protocol/datacodec"
 	"github.com/datastax/go-cassandra-native-protocol/primitive"
@@ -75,10 +76,7 @@ func (wk *worker) randomUnit(i int) {
 			wk.frameEPs(call{ver: byte(v), base: "random-body/" + opNames[op]}, b, mut{Class: mcRandBody, O: int(op), Val: int64(flags)}, 0, false)
 			// the same body declared compressed: random bytes as LZ4 length prefix + block / as Snappy
 			// block with a declared length below 2^28
-			cb := append([]byte{}, body...)
-			if len(cb) >= 5 && cb[0]&cb[1]&cb[2]&cb[3]&0x80 != 0 {
-				cb[4] = 0
-			}
+			cb := snappySafe(append([]byte{}, body...))
 			bc := append(ref.EncodeHeader(v, resp, flags|ref.FlagCompressed, 1, op, int32(len(cb))), cb...)
 			wk.frameEPs(call{ver: byte(v), base: "random-body/" + opNames[op]}, bc, mut{Class: mcRandBody, O: int(op), Val: int64(flags | 1)}, 0, false)
 		}
@@ -106,13 +104,13 @@ type special struct {
 var specials = []special{
 	{"1MiB-0xFF", func(*mon.Rand) []byte { return bytes.Repeat([]byte{0xFF}, MiB) }},
 	{"1MiB-0x00", func(*mon.Rand) []byte { return make([]byte, MiB) }},
-	{"1MiB-nested-list-524288", func(*mon.Rand) []byte { return rep([]byte{0x00, 0x20}, MiB) }},
+	{"4KiB-nested-list-2048", func(*mon.Rand) []byte { return rep([]byte{0x00, 0x20}, MiB) }},
 	{"1MiB-random-biased", func(r *mon.Rand) []byte { return biasedBytes(r, MiB) }},
 	{"64KiB-random", func(r *mon.Rand) []byte { return r.Bytes(64 << 10) }},
-	{"1MiB-nested-map-262144", func(*mon.Rand) []byte { return rep([]byte{0x00, 0x21, 0x00, 0x09}, MiB) }},
-	{"1MiB-nested-tuple-262144", func(*mon.Rand) []byte { return rep([]byte{0x00, 0x31, 0x00, 0x01}, MiB) }},
-	{"1MiB-nested-udt-104857", func(*mon.Rand) []byte { return rep([]byte{0x00, 0x30, 0, 0, 0, 0, 0, 1, 0, 0}, MiB) }},
-	{"1MiB-nested-set-524288", func(*mon.Rand) []byte { return rep([]byte{0x00, 0x22}, MiB) }},
+	{"4KiB-nested-map-1024", func(*mon.Rand) []byte { return rep([]byte{0x00, 0x21, 0x00, 0x09}, MiB) }},
+	{"4KiB-nested-tuple-1024", func(*mon.Rand) []byte { return rep([]byte{0x00, 0x31, 0x00, 0x01}, MiB) }},
+	{"4KiB-nested-udt-409", func(*mon.Rand) []byte { return rep([]byte{0x00, 0x30, 0, 0, 0, 0, 0, 1, 0, 0}, MiB) }},
+	{"4KiB-nested-set-2048", func(*mon.Rand) []byte { return rep([]byte{0x00, 0x22}, MiB) }},
 	{"64KiB-0xFF", func(*mon.Rand) []byte { return bytes.Repeat([]byte{0xFF}, 64<<10) }},
 	{"1MiB-rows-262000-empty-cells", func(*mon.Rand) []byte {
 		// RESULT Rows: kind 2, flags NO_METADATA, 4 columns, 65500 rows, every cell an empty [bytes]
@@ -124,12 +122,12 @@ var specials = []special{
 }
 
 var maxCountInputs = [][]byte{
-	{0xFF, 0xFF}, {0x7F, 0xFF}, {0x00, 0xFF, 0xFF, 0xFF}, {0x01, 0x00, 0x00, 0x00}, {0x00, 0x00, 0xFF, 0xFF},
-	nw().i32(2).i32(4).i32(0).i32(1 << 24).b,               // RESULT Rows, no metadata, 0 columns, 2^24 rows
-	nw().i32(2).i32(4).i32(1 << 24).i32(1).b,               // RESULT Rows, no metadata, 2^24 columns, 1 row
-	nw().i32(2).i32(0).i32(1 << 24).b,                      // RESULT Rows, 2^24 column specs
+	{0xFF, 0xFF}, {0x7F, 0xFF}, {0x00, 0x0F, 0xFF, 0xFF}, {0x00, 0x10, 0x00, 0x00}, {0x00, 0x00, 0xFF, 0xFF},
+	nw().i32(2).i32(4).i32(0).i32(1 << 20).b,               // RESULT Rows, no metadata, 0 columns, 2^20 rows
+	nw().i32(2).i32(4).i32(1 << 20).i32(1).b,               // RESULT Rows, no metadata, 2^20 columns, 1 row
+	nw().i32(2).i32(0).i32(1 << 20).b,                      // RESULT Rows, 2^20 column specs
 	nw().u8(0).u16(0xFFFF).b,                               // BATCH with 65535 children
-	nw().i32(0x1300).str("m").u16(1).i32(1).i32(1 << 24).b, // READ_FAILURE v5: reason map of 2^24 entries
+	nw().i32(0x1300).str("m").u16(1).i32(1).i32(1 << 20).b, // READ_FAILURE v5: reason map of 2^20 entries
 }
 
 // largePool: datacodec codecs the large inputs are decoded with
@@ -146,7 +144,10 @@ var largeTypes = []*cqlref.Type{
 	cqlref.Scalar(cqlref.Timestamp), cqlref.Scalar(cqlref.Boolean), cqlref.Scalar(cqlref.Double), cqlref.NewCustom("c.C"),
 }
 
-func (wk *worker) toEverything(name string, in []byte, m mut, frames bool) {
+// uniform: the input is uniform random bytes; it is not fed to the message codecs, primitive readers
+// and CQL codecs directly (a uniform random [int] length is a gigabyte every other time; they get the
+// biased random special), only to the entry points that validate something first.
+func (wk *worker) toEverything(name string, in []byte, m mut, frames bool, uniform bool) {
 	// frames: a valid header for every version x opcode, the input as body (cut so that header + body <= 1 MiB)
 	if frames {
 		for _, v := range ref.Versions {
@@ -186,10 +187,12 @@ func (wk *worker) toEverything(name string, in []byte, m mut, frames bool) {
 		cl := call{ep: epHeader, base: name}
 		wk.exec(&cl, in, m, func(in []byte) bool { _, err := codecs[0].DecodeHeader(bytes.NewReader(in)); return err == nil })
 	}
-	wk.msgExecAll(name, in, m)
 	wk.typeExec(name, in, m, libVersions)
-	for pi := range primReaders {
-		wk.primExec(&primReaders[pi], name, in, m)
+	if !uniform {
+		wk.msgExecAll(name, in, m)
+		for pi := range primReaders {
+			wk.primExec(&primReaders[pi], name, in, m)
+		}
 	}
 	wk.segExec(name, in, m, -1)
 	if len(in) >= segref.MaxPayload {
@@ -204,7 +207,13 @@ func (wk *worker) toEverything(name string, in []byte, m mut, frames bool) {
 		prefix   []byte
 	}{{epLz4Raw, 1, fnLz4Raw, nil}, {epLz4WithLen, 1, fnLz4WithLen, nil}, {epLz4WithLen, 1, fnLz4WithLen, be32(1 << 20)},
 		{epSnappyWithLen, 2, fnSnappyWithLen, uvarint(1 << 20)}, {epSnappyWithLen, 2, fnSnappyWithLen, uvarint(1 << 24)}} {
+		if z.ep == epLz4Raw && len(in) > 64<<10 && name != "1MiB-0xFF" && name != "1MiB-rows-262000-empty-cells" {
+			continue // lz4.Decompress allocates up to 510 x the input length before it fails: two 1 MiB inputs are enough
+		}
 		b := in
+		if uniform && z.ep == epSnappyWithLen {
+			b = snappySafe(b)
+		}
 		if z.prefix != nil {
 			b = append(append([]byte{}, z.prefix...), in...)
 			if len(b) > MiB {
@@ -213,6 +222,9 @@ func (wk *worker) toEverything(name string, in []byte, m mut, frames bool) {
 		}
 		cl := call{ep: z.ep, comp: z.comp, base: name}
 		wk.exec(&cl, b, m, z.fn)
+	}
+	if uniform {
+		return
 	}
 	for _, t := range largeTypes {
 		var codec datacodec.Codec
@@ -232,22 +244,71 @@ func (wk *worker) largeUnit(i int) {
 	if i >= len(specials) {
 		return
 	}
+	// deaths are expected here (a 1 MiB input makes lz4.Decompress try buffers up to 255 MiB, and
+	// half a million nested type descriptors need a 128 MiB goroutine stack): snapshot often
+	defer func(n int64) { wk.flushEvery = n }(wk.flushEvery)
+	wk.flushEvery = 20
 	sp := specials[i]
 	r := mon.NewRand(wk.seed, utag(tagLarge, i, 0))
 	if sp.mk == nil {
 		for j, b := range maxCountInputs {
-			wk.toEverything(sp.name, b, mut{Class: mcSpecial, O: j}, true)
+			wk.toEverything(sp.name, b, mut{Class: mcSpecial, O: j}, true, false)
 		}
 		return
 	}
-	wk.toEverything(sp.name, sp.mk(r), mut{Class: mcSpecial}, true)
+	in := sp.mk(r)
+	if strings.Contains(sp.name, "nested") {
+		// 4 KiB of the pattern (2048 levels for list / set). Deeper descriptors are resource-class
+		// material: ReadDataType wraps the error of level n in the error of level n-1, so a descriptor
+		// that ends early costs quadratic time and memory (32768 levels: minutes and gigabytes; 524288
+		// levels: a 256 MiB stack first). They run in the resource table of the thorough tier.
+		in = in[:4<<10]
+	} else if !wk.thorough && len(in) > 64<<10 {
+		in = in[:64<<10] // quick tier: the first 64 KiB of every special; the thorough tier feeds the full 1 MiB
+	}
+	if strings.Contains(sp.name, "nested") {
+		// the descriptor goes to ReadDataType directly (every version), and inside a RESULT Rows body to
+		// the frame-level entry points for one version
+		m := mut{Class: mcSpecial}
+		wk.typeExec(sp.name, in, m, libVersions)
+		body := append(nw().i32(2).i32(1).i32(1).str("").str("").str("").b, in...) // Rows, global spec, 1 column whose type is the special
+		if len(body) > MiB-9 {
+			body = body[:MiB-9]
+		}
+		b := append(ref.EncodeHeader(ref.V4, true, 0, 1, ref.OpResult, int32(len(body))), body...)
+		wk.frameEPs(call{ver: 4, base: sp.name + "/RESULT"}, b, m, 0, false)
+		return
+	}
+	uniform := sp.name == "64KiB-random" || sp.name == "1MiB-random-biased"
+	// random specials are not wrapped in valid headers (every opcode whose body starts with an [int]
+	// or [long string] would ask for a gigabyte): they go to the entry points as they are
+	wk.toEverything(sp.name, in, mut{Class: mcSpecial}, !uniform, uniform)
+	if uniform {
+		wk.frameEPs(call{base: sp.name}, in, mut{Class: mcSpecial}, 0, true)
+	}
 }
 
 // ---------------------------------------------------------------------------------------------
 // resource table: 2^28, 2^31-1, -2^31 on a PRNG sample of length/count-like fields, one execution
 // per unit, run by the dedicated serialised worker.
 
+// deepNested: thorough tier, resource table: type descriptors nested 32768 and 524288 deep (the 1 MiB
+// special of the design). Expected outcome: memory exhaustion (256 MiB goroutine stack for the deep
+// one; error messages wrapping each other, quadratic in the depth, when the descriptor ends early).
+var deepNested = []struct {
+	name string
+	mk   func() []byte
+}{
+	{"64KiB-nested-list-32768", func() []byte { return rep([]byte{0x00, 0x20}, 64<<10) }},
+	{"1MiB-nested-list-524288", func() []byte { return rep([]byte{0x00, 0x20}, MiB) }},
+	{"64KiB-nested-map-16384", func() []byte { return rep([]byte{0x00, 0x21, 0x00, 0x09}, 64<<10) }},
+}
+
 func (wk *worker) resourceUnit(i int) {
+	if wk.thorough && i < len(deepNested) {
+		wk.typeExec(deepNested[i].name, deepNested[i].mk(), mut{Class: mcSpecial}, libVersions[2:3])
+		return
+	}
 	r := mon.NewRand(wk.seed, utag(tagRes, i, 0))
 	val := hugeValues[r.Intn(len(hugeValues))]
 	apply := func(b []byte, from int) ([]byte, mut, bool) {
